@@ -207,7 +207,7 @@ def larger_allocations(chunk, replay=None):
     import random
     tier = os.environ.get("VERIF_TIER", "quick")
     rng = random.Random(1200 + chunk + 100 * int(os.environ.get("VERIF_SEED", "0") or 0))
-    n_cases = 20 if tier != "thorough" else 500
+    n_cases = 20 if tier != "thorough" else 250
     failures, evals, samples = [], 0, []
 
     def cells_of(a):
